@@ -29,6 +29,7 @@ import Osmium.Lemmas.PbfDense3
 import Osmium.Lemmas.PbfBlock
 import Osmium.Lemmas.PbfFile
 import Osmium.Generated.Consts
+import Osmium.Lemmas.SrcTie
 
 namespace Osmium.Pbf
 
@@ -368,5 +369,201 @@ theorem consts_tie_pbf_writer :
     Osmium.PbfFraming.maxUncompressedBlobSize = Osmium.Generated.Consts.pbfMaxUncompressedBlobSize ∧
     maxOsmStringLength = Osmium.Generated.Consts.maxOsmStringLength ∧
     Osmium.Generated.Consts.pbfResolutionConvert = 100 ∧ Osmium.Generated.Consts.coordinatePrecision = 10000000 := by decide
+
+/-! ## source ties: `util/delta.hpp` translated (tools/cxx2lean.py, state transformers over `m_value`)
+
+Each `update` of the instantiations the PBF writer / decoder use (pbf_output_format.hpp `DenseNodes`, the way
+and relation encoders; pbf_decoder.hpp) is regenerated from the source as
+`Src.Delta.<Class>_<TValue>_<TDelta>.update : State → Int → Outcome State Int`.  The ties say: on typed
+arguments on which the translated code has no undefined behaviour (signed overflow of the subtraction /
+addition in `TDelta`), the call returns normally, the new state holds the new value, and the returned delta is
+the head of the model's `encGo` / `decGo` — for every tail of the sequence. -/
+section SrcTies
+open Osmium.Generated Osmium.CxxSem
+
+theorem wrapS32_eq_swrap (x : Int) : wrapS 32 x = Delta.swrap 32 x := by
+  simp only [wrapS, Delta.swrap, Int.reducePow, Nat.reduceSub]
+  split <;> omega
+
+/-- `DeltaEncode<int64_t, int64_t>::update` (ids, refs, member ids, coordinates) -/
+theorem src_tie_delta_encode_i64 (s : Src.Delta.DeltaEncode_i64_i64) (x : Int) (xs : List Int)
+    (ht : Src.Delta.DeltaEncode_i64_i64.update_typed s x = true)
+    (hd : Src.Delta.DeltaEncode_i64_i64.update_defined s x = true) :
+    ∃ d, Src.Delta.DeltaEncode_i64_i64.update s x = .normal ⟨x⟩ d ∧
+      Delta.encGo 64 s.m_value (x :: xs) = d :: Delta.encGo 64 x xs := by
+  simp only [Src.Delta.DeltaEncode_i64_i64.update_typed, Src.Delta.DeltaEncode_i64_i64.typed,
+    Src.Delta.DeltaEncode_i64_i64.update_defined, Bool.and_eq_true, inS_iff, Nat.reduceSub, Int.reducePow] at ht hd
+  refine ⟨x - s.m_value, by first | rfl | (dsimp only [Src.Delta.DeltaEncode_i64_i64.update]; outcome_eq), ?_⟩
+  simp only [Delta.encGo]
+  rw [Delta.swrap64_id x (by omega) (by omega), Delta.swrap64_id s.m_value (by omega) (by omega),
+    Delta.swrap64_id _ (by omega) (by omega)]
+
+/-- the no-UB condition of that instantiation: the difference fits into `int64_t` -/
+theorem src_defined_delta_encode_i64 (s : Src.Delta.DeltaEncode_i64_i64) (x : Int) :
+    Src.Delta.DeltaEncode_i64_i64.update_defined s x = true ↔
+      -(2:Int)^63 ≤ x - s.m_value ∧ x - s.m_value < (2:Int)^63 := by
+  simp only [Src.Delta.DeltaEncode_i64_i64.update_defined, inS_iff, Nat.reduceSub]
+
+/-- `DeltaEncode<uint32_t, int64_t>::update` (dense timestamp, changeset): never undefined -/
+theorem src_tie_delta_encode_u32_i64 (s : Src.Delta.DeltaEncode_u32_i64) (x : Int) (xs : List Int)
+    (ht : Src.Delta.DeltaEncode_u32_i64.update_typed s x = true) :
+    Src.Delta.DeltaEncode_u32_i64.update_defined s x = true ∧
+    ∃ d, Src.Delta.DeltaEncode_u32_i64.update s x = .normal ⟨x⟩ d ∧
+      Delta.encGo 64 s.m_value (x :: xs) = d :: Delta.encGo 64 x xs := by
+  simp only [Src.Delta.DeltaEncode_u32_i64.update_typed, Src.Delta.DeltaEncode_u32_i64.typed,
+    Bool.and_eq_true, inU_iff, Int.reducePow] at ht
+  refine ⟨?_, x - s.m_value, by first | rfl | (dsimp only [Src.Delta.DeltaEncode_u32_i64.update]; outcome_eq), ?_⟩
+  · simp only [Src.Delta.DeltaEncode_u32_i64.update_defined, inS_iff, Nat.reduceSub, Int.reducePow]; omega
+  · simp only [Delta.encGo]
+    rw [Delta.swrap64_id x (by omega) (by omega), Delta.swrap64_id s.m_value (by omega) (by omega),
+      Delta.swrap64_id _ (by omega) (by omega)]
+
+/-- `DeltaEncode<user_id_type = uint32_t, int32_t>::update` (dense uid) -/
+theorem src_tie_delta_encode_u32_i32 (s : Src.Delta.DeltaEncode_u32_i32) (x : Int) (xs : List Int)
+    (hd : Src.Delta.DeltaEncode_u32_i32.update_defined s x = true) :
+    ∃ d, Src.Delta.DeltaEncode_u32_i32.update s x = .normal ⟨x⟩ d ∧
+      Delta.encGo 32 s.m_value (x :: xs) = d :: Delta.encGo 32 x xs := by
+  simp only [Src.Delta.DeltaEncode_u32_i32.update_defined, inS_iff, Nat.reduceSub, Int.reducePow] at hd
+  simp only [Delta.encGo, wrapS32_eq_swrap] at hd ⊢
+  refine ⟨Delta.swrap 32 x - Delta.swrap 32 s.m_value,
+    by first | (simp only [Src.Delta.DeltaEncode_u32_i32.update, wrapS32_eq_swrap]; done)
+             | (simp only [Src.Delta.DeltaEncode_u32_i32.update, wrapS32_eq_swrap]; outcome_eq), ?_⟩
+  rw [Delta.swrap32_id _ (by omega) (by omega)]
+
+/-- on the property's domain (uids below 2^31) that instantiation is never undefined -/
+theorem src_defined_delta_encode_u32_i32 (s : Src.Delta.DeltaEncode_u32_i32) (x : Int)
+    (h0 : 0 ≤ s.m_value ∧ s.m_value < (2:Int)^31) (hx : 0 ≤ x ∧ x < (2:Int)^31) :
+    Src.Delta.DeltaEncode_u32_i32.update_defined s x = true := by
+  simp only [Src.Delta.DeltaEncode_u32_i32.update_defined, inS_iff, Nat.reduceSub, Int.reducePow, wrapS32_eq_swrap] at *
+  rw [Delta.swrap32_id _ (by omega) (by omega), Delta.swrap32_id _ (by omega) (by omega)]
+  omega
+
+/-- `DeltaEncode<int32_t, int32_t>::update` (dense user_sid) -/
+theorem src_tie_delta_encode_i32 (s : Src.Delta.DeltaEncode_i32_i32) (x : Int) (xs : List Int)
+    (ht : Src.Delta.DeltaEncode_i32_i32.update_typed s x = true)
+    (hd : Src.Delta.DeltaEncode_i32_i32.update_defined s x = true) :
+    ∃ d, Src.Delta.DeltaEncode_i32_i32.update s x = .normal ⟨x⟩ d ∧
+      Delta.encGo 32 s.m_value (x :: xs) = d :: Delta.encGo 32 x xs := by
+  simp only [Src.Delta.DeltaEncode_i32_i32.update_typed, Src.Delta.DeltaEncode_i32_i32.typed,
+    Src.Delta.DeltaEncode_i32_i32.update_defined, Bool.and_eq_true, inS_iff, Nat.reduceSub, Int.reducePow] at ht hd
+  refine ⟨x - s.m_value, by first | rfl | (dsimp only [Src.Delta.DeltaEncode_i32_i32.update]; outcome_eq), ?_⟩
+  simp only [Delta.encGo]
+  rw [Delta.swrap32_id x (by omega) (by omega), Delta.swrap32_id s.m_value (by omega) (by omega),
+    Delta.swrap32_id _ (by omega) (by omega)]
+
+/-- `DeltaDecode<int64_t, int64_t>::update` — the only instantiation the PBF decoder uses -/
+theorem src_tie_delta_decode_i64 (s : Src.Delta.DeltaDecode_i64_i64) (d : Int) (ds : List Int)
+    (hd : Src.Delta.DeltaDecode_i64_i64.update_defined s d = true) :
+    ∃ v, Src.Delta.DeltaDecode_i64_i64.update s d = .normal ⟨v⟩ v ∧
+      Delta.decGo s.m_value (d :: ds) = v :: Delta.decGo v ds := by
+  simp only [Src.Delta.DeltaDecode_i64_i64.update_defined, inS_iff, Nat.reduceSub, Int.reducePow] at hd
+  have hv : Delta.swrap 64 (s.m_value + d) = s.m_value + d := Delta.swrap64_id _ (by omega) (by omega)
+  refine ⟨Delta.swrap 64 (s.m_value + d), ?_, rfl⟩
+  rw [hv]
+  first | rfl | (dsimp only [Src.Delta.DeltaDecode_i64_i64.update]; outcome_eq)
+
+/-- which instantiation each delta coder of `DenseNodes` IS (the member types of the regenerated record): the
+    widths `Delta.encId/encTimestamp/encChangeset/encUid/encUserSid/encCoord` hard-code (64, 64, 64, 32, 32, 64).
+    A change of a template argument in pbf_output_format.hpp changes a member type and this stops type-checking. -/
+theorem src_tie_dense_delta_instances (d : Src.PbfOutputFormat.DenseNodes) :
+    (d.m_delta_id : Src.Delta.DeltaEncode_i64_i64) = d.m_delta_id ∧
+    (d.m_delta_timestamp : Src.Delta.DeltaEncode_u32_i64) = d.m_delta_timestamp ∧
+    (d.m_delta_changeset : Src.Delta.DeltaEncode_u32_i64) = d.m_delta_changeset ∧
+    (d.m_delta_uid : Src.Delta.DeltaEncode_u32_i32) = d.m_delta_uid ∧
+    (d.m_delta_user_sid : Src.Delta.DeltaEncode_i32_i32) = d.m_delta_user_sid ∧
+    (d.m_delta_lat : Src.Delta.DeltaEncode_i64_i64) = d.m_delta_lat ∧
+    (d.m_delta_lon : Src.Delta.DeltaEncode_i64_i64) = d.m_delta_lon ∧
+    Delta.encId = Delta.enc 64 ∧ Delta.encTimestamp = Delta.enc 64 ∧ Delta.encChangeset = Delta.enc 64 ∧
+    Delta.encUid = Delta.enc 32 ∧ Delta.encUserSid = Delta.enc 32 ∧ Delta.encCoord = Delta.enc 64 :=
+  ⟨rfl, rfl, rfl, rfl, rfl, rfl, rfl, rfl, rfl, rfl, rfl, rfl, rfl⟩
+
+/-- `clear()` puts both classes back into the state every model run starts from (`enc`/`dec` start at 0) -/
+theorem src_tie_delta_clear (e : Src.Delta.DeltaEncode_i64_i64) (d : Src.Delta.DeltaDecode_i64_i64) :
+    Src.Delta.DeltaEncode_i64_i64.clear e = .normal ⟨0⟩ () ∧ Src.Delta.DeltaDecode_i64_i64.clear d = .normal ⟨0⟩ () :=
+  ⟨rfl, rfl⟩
+
+-- the hypotheses are satisfiable (extreme values included)
+example : Src.Delta.DeltaEncode_i64_i64.update_typed ⟨-9223372036854775808⟩ (-1) = true ∧
+    Src.Delta.DeltaEncode_i64_i64.update_defined ⟨-9223372036854775808⟩ (-1) = true := by decide
+example : Src.Delta.DeltaEncode_u32_i64.update_typed ⟨4294967295⟩ 0 = true := by decide
+example : Src.Delta.DeltaEncode_u32_i32.update_defined ⟨2147483647⟩ 0 = true := by decide
+example : Src.Delta.DeltaEncode_i32_i32.update_typed ⟨-5⟩ 7 = true ∧ Src.Delta.DeltaEncode_i32_i32.update_defined ⟨-5⟩ 7 = true := by decide
+example : Src.Delta.DeltaDecode_i64_i64.update_defined ⟨9223372036854775806⟩ 1 = true := by decide
+-- and outside the defined domain the translated code reports the overflow (the compiled code wraps; the model wraps)
+example : Src.Delta.DeltaEncode_i64_i64.update_defined ⟨-9223372036854775808⟩ 1 = false := by decide
+
+/-! ### block accounting of the PBF writer (`DenseNodes::size()`, `PrimitiveBlock::can_add`) -/
+
+/-- `DenseNodes::size()` is the weighted sum of the nine vector lengths whenever that sum fits `size_t`
+    (every intermediate unsigned result is then exact) -/
+theorem src_tie_dense_size_sum (d : Src.PbfOutputFormat.DenseNodes)
+    (ht : 0 ≤ d.m_ids.size ∧ 0 ≤ d.m_versions.size ∧ 0 ≤ d.m_timestamps.size ∧ 0 ≤ d.m_changesets.size ∧
+      0 ≤ d.m_uids.size ∧ 0 ≤ d.m_user_sids.size ∧ 0 ≤ d.m_visibles.size ∧ 0 ≤ d.m_tags.size)
+    (hb : d.m_ids.size * 24 + d.m_versions.size * 5 + d.m_timestamps.size * 10 + d.m_changesets.size * 10 +
+      d.m_uids.size * 5 + d.m_user_sids.size * 5 + d.m_visibles.size + d.m_tags.size * 5 < 2 ^ 64) :
+    Src.PbfOutputFormat.DenseNodes.size d =
+      d.m_ids.size * 24 + d.m_versions.size * 5 + d.m_timestamps.size * 10 + d.m_changesets.size * 10 +
+      d.m_uids.size * 5 + d.m_user_sids.size * 5 + d.m_visibles.size + d.m_tags.size * 5 := by
+  simp only [Src.PbfOutputFormat.DenseNodes.size, wrapU]
+  omega
+
+/-- `DenseNodes::size()` = `denseSize`: when the nine vectors have the lengths the options give them
+    (`m_ids` one entry per row, the metadata vectors one entry per row iff the option is on, `m_tags` the
+    key/value ids with terminators) and the estimate does not wrap in `size_t` -/
+theorem src_tie_dense_size (o : Opts) (rows : List DenseRow) (d : Src.PbfOutputFormat.DenseNodes)
+    (h1 : d.m_ids.size = rows.length)
+    (h2 : d.m_versions.size = if o.mdVersion then rows.length else 0)
+    (h3 : d.m_timestamps.size = if o.mdTimestamp then rows.length else 0)
+    (h4 : d.m_changesets.size = if o.mdChangeset then rows.length else 0)
+    (h5 : d.m_uids.size = if o.mdUid then rows.length else 0)
+    (h6 : d.m_user_sids.size = if o.mdUser then rows.length else 0)
+    (h7 : d.m_visibles.size = if o.history then rows.length else 0)
+    (h8 : d.m_tags.size = ((rows.map fun r => r.tags.length).sum : Nat))
+    (hb : denseSize o rows < 2 ^ 64) :
+    Src.PbfOutputFormat.DenseNodes.size d = (denseSize o rows : Nat) := by
+  rcases o with ⟨dn, v1, v2, v3, v4, v5, hs, lw⟩
+  dsimp only at h2 h3 h4 h5 h6 h7
+  simp only [denseSize] at hb ⊢
+  generalize rows.length = n at *
+  generalize (rows.map fun r => r.tags.length).sum = T at *
+  have key : (0 ≤ d.m_ids.size ∧ 0 ≤ d.m_versions.size ∧ 0 ≤ d.m_timestamps.size ∧ 0 ≤ d.m_changesets.size ∧
+      0 ≤ d.m_uids.size ∧ 0 ≤ d.m_user_sids.size ∧ 0 ≤ d.m_visibles.size ∧ 0 ≤ d.m_tags.size) ∧
+      d.m_ids.size * 24 + d.m_versions.size * 5 + d.m_timestamps.size * 10 + d.m_changesets.size * 10 +
+        d.m_uids.size * 5 + d.m_user_sids.size * 5 + d.m_visibles.size + d.m_tags.size * 5 =
+      ((n * 3 * 8 + (if v1 then n * 5 else 0) + (if v2 then n * 10 else 0) + (if v3 then n * 10 else 0) +
+        (if v4 then n * 5 else 0) + (if v5 then n * 5 else 0) + (if hs then n else 0) + T * 5 : Nat) : Int) := by
+    simp only [h1, h2, h3, h4, h5, h6, h7, h8]
+    cases v1 <;> cases v2 <;> cases v3 <;> cases v4 <;> cases v5 <;> cases hs <;>
+      simp only [↓reduceIte, Bool.false_eq_true] at hb ⊢ <;> omega
+  rw [src_tie_dense_size_sum d key.1 (by rw [key.2]; exact_mod_cast hb), key.2]
+
+/-- `PrimitiveBlock::can_add(type)` = `Block.canAdd`, with the value of `size()` left opaque in the translation
+    and instantiated with the model's `Block.size` -/
+theorem src_tie_primitive_block_can_add (o : Opts) (b : Block) (pb : Src.PbfOutputFormat.PrimitiveBlock) (kind : Nat)
+    (h1 : pb.m_type = (b.kind : Int)) (h2 : pb.m_count = (b.count : Int)) :
+    Src.PbfOutputFormat.PrimitiveBlock.can_add pb kind (b.size o : Nat) = b.canAdd o kind := by
+  have e1 : wrapS 32 Src.PbfOutputFormat.max_entities_per_block = 8000 := by decide
+  have e2 : Src.PbfOutputFormat.PrimitiveBlock.max_used_blob_size = (maxUsedBlobSize : Int) := by decide
+  have e3 : Src.PbfOutputFormat.max_entities_per_block = 8000 := by decide
+  have e4 : wrapS 32 (8000 : Int) = 8000 := by decide
+  -- the model side as a proposition
+  have hm : b.canAdd o kind = true ↔ (kind = b.kind ∧ b.count < 8000 ∧ b.size o < maxUsedBlobSize) := by
+    unfold Block.canAdd maxEntitiesPerBlock
+    by_cases k : kind = b.kind <;> by_cases c : b.count ≥ 8000 <;> simp [k, c] <;> omega
+  rw [Bool.eq_iff_iff, hm]
+  -- the source side, whatever the shape of its control flow: decide the three atomic tests
+  by_cases k : kind = b.kind <;> by_cases c : b.count < 8000 <;> by_cases z : b.size o < maxUsedBlobSize <;>
+    (have k1 : ((kind : Int) = (b.kind : Int)) ↔ kind = b.kind := by omega) <;>
+    (have k2 : ((b.kind : Int) = (kind : Int)) ↔ kind = b.kind := by omega) <;>
+    (have c1 : ((b.count : Int) < 8000) ↔ b.count < 8000 := by omega) <;>
+    (have c2 : ((8000 : Int) ≤ (b.count : Int)) ↔ ¬ b.count < 8000 := by omega) <;>
+    (have z1 : ((b.size o : Int) < (maxUsedBlobSize : Int)) ↔ b.size o < maxUsedBlobSize := by omega) <;>
+    (have z2 : ((maxUsedBlobSize : Int) ≤ (b.size o : Int)) ↔ ¬ b.size o < maxUsedBlobSize := by omega) <;>
+    simp [Src.PbfOutputFormat.PrimitiveBlock.can_add, Src.PbfOutputFormat.PrimitiveBlock.count, h1, h2, e1, e2, e3,
+      e4, k1, k2, c1, c2, z1, z2, k, c, z]
+
+example : ∃ (o : Opts) (rows : List DenseRow), denseSize o rows < 2 ^ 64 := ⟨{}, [], by decide⟩
+
+end SrcTies
 
 end Osmium.Pbf
